@@ -108,7 +108,37 @@ AUTH_KINDS = ['nohdr0', 'viewonly', 'normal', 'admin']
 # none then; only a *missing* header makes the caller admin)
 AUTH_EXTRA = ['nohdr1', 'invalid:wrongpw', 'invalid:garbage', 'invalid:basic', 'invalid:nousr', 'invalid:device',
               'invalid:empty-bearer', 'invalid:wrongpw+e', 'invalid:garbage+e', 'viewonly+e', 'normal+e']
-CALLER_LEVEL = {'nohdr0': O, 'nohdr1': A, 'viewonly': V, 'normal': N, 'admin': A}
+PW_CONFIGS = ['000', '001', '010', '011', '100', '101', '110', '111']   # admin / normal / view-only password empty
+
+
+def parse_auth(auth: str):
+    """auth string of a case -> (credential for the model: nohdr|invalid|viewonly|normal|admin, variant of the
+    header to send, password configuration: 3 chars 0/1 = admin/normal/viewonly password is empty).
+    `nohdr0` = no header, all passwords set; `nohdr1` / suffix `+e` = admin password empty (others set);
+    suffix `@abc` = explicit configuration."""
+    pw = '000'
+    if '@' in auth:
+        auth, pw = auth.split('@')
+    elif auth.endswith('+e'):
+        auth, pw = auth[:-2], '100'
+    elif auth == 'nohdr1':
+        pw = '100'
+    if auth in ('nohdr0', 'nohdr1', 'nohdr'):
+        return 'nohdr', '', pw
+    if auth.startswith('invalid'):
+        return 'invalid', auth.split(':', 1)[1] if ':' in auth else 'garbage', pw
+    return auth, '', pw
+
+
+def caller_level(auth: str) -> int:
+    """The level the caller is entitled to — by the statement: its valid token's level; without valid credentials
+    none, except that a request without header is admin iff the ADMIN password is empty."""
+    cred, _, pw = parse_auth(auth)
+    if cred == 'nohdr':
+        return A if pw[0] == '1' else O
+    if cred == 'invalid':
+        return O
+    return LEVEL_OF_NAME[cred]
 
 
 def bits_of(feats: dict) -> str:
@@ -174,7 +204,8 @@ class C09(Prop):
             '(existing/missing/boundary ids, trailing slash), one table-comparison case and one unknown-routes case per '
             'configuration; generated = random feature sets (40% full method x caller sweeps of one URLSpec, else '
             'random requests), mutated/unknown paths, invalid tokens, empty admin password, non-JSON bodies, malformed '
-            'Session-Id. A dispatch case is non-trivial when it contains both a served and a refused '
+            'Session-Id, all 8 empty/set password configurations (corpus: 7 representative endpoints x 7 callers x 8 '
+            'configurations x features on/off). A dispatch case is non-trivial when it contains both a served and a refused '
             'request or a 404 for a disabled feature; distinct = distinct (configuration, route set, outcome kinds)')
     CORRESPONDENCE = ('Access.serve / Access.table / Pat.matches <-> tornado Application(web.server._make_routing_table()) '
                       '+ web.handlers + web.base.APIHandler.prepare/call_api_func + core.api.api_call')
@@ -276,6 +307,20 @@ class C09(Prop):
             [m, p, '', a, b] for p, m in (('/api/reset', 'POST'), ('/api/ports/hw1/value', 'PATCH'), ('/api/ports', 'PUT'),
                                            ('/api/device', 'PATCH'), ('/api/frontend/prefs', 'PUT'))
             for a in AUTH_KINDS for b in ('json', 'badct', 'malformed')]})
+        # every combination of empty / set passwords: callers without valid credentials get 401 on every route that
+        # requires a level unless the ADMIN password is empty; valid tokens keep their own level
+        off = configurations()[1]
+        targets = [('GET', '/api/ports'), ('GET', '/api/ports/hw1/value'), ('PATCH', '/api/ports/hw1/value'),
+                   ('GET', '/api/device'), ('PATCH', '/api/device'), ('POST', '/api/reset'), ('GET', '/api/access')]
+        for pw in PW_CONFIGS:
+            callers = ['nohdr', 'invalid:garbage', 'invalid:wrongpw', 'invalid:nousr', 'viewonly', 'normal', 'admin']
+            for bits in (on, off):
+                cases.append({'kind': 'dispatch', 'feats': bits, 'route': f'passwords-{pw}', 'reqs': [
+                    [m, p, '', f'{a}@{pw}', 'json'] for m, p in targets for a in callers]})
+        cases.append({'kind': 'dispatch', 'feats': on, 'route': 'passwords-routes', 'reqs': [
+            [m, path, self.QUERY.get(name, ''), f'nohdr@{pw}', 'json']
+            for name, regex in routes for path in self.paths_for(name, regex)[:1] for m in ('GET', 'PATCH', 'PUT', 'POST')
+            for pw in ('011', '010', '001')]})
         cases.append({'kind': 'dispatch', 'feats': on, 'route': 'session-ids', 'reqs': [
             [m, p, '', a, 'json', sid] for p in ('/api/device', '/api/ports', '/api/access', '/api/devices/slv1/events',
                                                  '/api/nothing')
@@ -295,8 +340,9 @@ class C09(Prop):
             # every method x caller on 2-3 paths of one URLSpec under a random feature set
             name, regex = rng.choice(routes)
             extra = rng.choice(AUTH_EXTRA)
+            pw = rng.choice(PW_CONFIGS)
             reqs = [[m, path, self.QUERY.get(name, ''), a, 'json'] for path in self.paths_for(name, regex)
-                    for m in METHODS for a in AUTH_KINDS + [extra]]
+                    for m in METHODS for a in AUTH_KINDS + [extra, f'nohdr@{pw}', f'invalid:garbage@{pw}']]
             return {'kind': 'dispatch', 'feats': bits, 'route': name, 'reqs': reqs}
         voc = self.vocabulary()
         ids = ['vn1', 'hw1', 'vb1', 'per1', 'slv1', 'nope', 'A.z-_9', 'A-z_9', 'a.b', 'a%20b', 'x~y', '0', '_', '-', '.',
@@ -331,6 +377,9 @@ class C09(Prop):
                 path = '/api' + path if path.startswith('/') else '/api/' + path
             method = rng.choice(METHODS + ['GET', 'PATCH', 'PUT', 'POST', 'DELETE'] + (['get', 'TRACE'] if r > 0.9 else []))
             auth = rng.choice(AUTH_KINDS * 3 + AUTH_EXTRA)
+            if rng.random() < 0.25:
+                auth = rng.choice(['nohdr', 'nohdr', 'invalid:garbage', 'invalid:wrongpw', 'viewonly', 'normal', 'admin']) \
+                    + '@' + rng.choice(PW_CONFIGS)
             body = rng.choice(['json'] * 6 + ['badct', 'malformed'])
             query = 'timeout=1' if '/listen' in path else rng.choice(['', '', 'x=1', 'from=0&to=9'])
             sid = rng.choice(['ok'] * 8 + ['bad', 'none'])
@@ -585,12 +634,11 @@ class C09(Prop):
     def _auth_headers(self, auth):
         from qtoggleserver.core.api import auth as core_api_auth
         hub = self.hub
-        auth = auth.removesuffix('+e')
-        if auth in ('nohdr0', 'nohdr1'):
+        cred, kind, _ = parse_auth(auth)
+        if cred == 'nohdr':
             return {}
-        if auth in ('viewonly', 'normal', 'admin'):
-            return {'Authorization': hub.auth_header(auth)}
-        kind = auth.split(':', 1)[1]
+        if cred in ('viewonly', 'normal', 'admin'):
+            return {'Authorization': hub.auth_header(cred)}      # signed with the user's current password
         if kind == 'wrongpw':
             return {'Authorization': hub.auth_header('admin', 'not-the-password')}
         if kind == 'garbage':
@@ -634,8 +682,9 @@ class C09(Prop):
         for rq in case['reqs']:
             method, path, query, auth, body = rq[:5]
             sid = rq[5] if len(rq) > 5 else 'ok'          # Session-Id header: ok | bad | none
-            model_auth = auth.removesuffix('+e').split(':')[0]
-            admin_empty = auth == 'nohdr1' or auth.endswith('+e')
+            cred, _, pw = parse_auth(auth)
+            model_auth = f'{cred}@{pw}'
+            admin_empty = pw != '000'          # any non-default password configuration
             has_body = method in BODY_METHODS
             rep = driver.ask(f'serve {bits} {method} {model_auth} {body if has_body else "json"} '
                              f'{"s0" if sid == "bad" else "s1"} {path}')
@@ -644,6 +693,9 @@ class C09(Prop):
             mw = rep.split()[1:]
             mkind = mw[0]
             fn = mw[2] if mkind == 'refused' else (mw[1] if mkind == 'run' else None)
+            if admin_empty:                        # before the token is made: it is signed with the current password
+                hub.set_passwords(empty=pw)
+                prev = await hub.digest()
             headers = {} if sid == 'none' else {'Session-Id': 'c09sess' if sid == 'ok' else '-c09'}
             headers.update(self._auth_headers(auth))
             payload = b''
@@ -660,9 +712,6 @@ class C09(Prop):
                 else:
                     headers['Content-Type'] = 'application/json'
                     payload = b'{"c09": '
-            if admin_empty:
-                hub.set_passwords(admin_empty=True)
-                prev = await hub.digest()
             uri = path + ('?' + query if query else '')
             resp = await hub.request(app, method, uri, headers, payload)
             await asyncio.sleep(3.0 if fn in SLOW_EFFECT else 0.05)
@@ -686,7 +735,7 @@ class C09(Prop):
                 continue
 
             # ---------------- property oracle (SPEC, independent of the model)
-            caller = CALLER_LEVEL.get(auth.removesuffix('+e'), O)
+            caller = caller_level(auth)
             known, req_level = self.spec_lookup(feats, method, path)
             hc = resp.handler_class
             if path.startswith('/api/') and hc is not None and not issubclass(hc, web_base.BaseHandler):
